@@ -61,6 +61,12 @@ impl Exec {
     pub fn probe(&mut self, name: &str, n: u64) {
         *self.probes.entry(name.to_string()).or_insert(0) += n;
     }
+    /// A fault injected through a seam other than the network (forced delivery boundary,
+    /// short read, Pending, stream reset, cancelled call, stalled peer stream, ...): counted
+    /// when it actually happened in the run. Reported as `faults_fired_other` in the evidence.
+    pub fn fault(&mut self, kind: &str, n: u64) {
+        *self.probes.entry(format!("fault:{kind}")).or_insert(0) += n;
+    }
     pub fn violation(&mut self, class: &str, detail: String) {
         // first violation wins (stable class for shrinking)
         if !matches!(self.verdict, Verdict::Violation { .. }) {
@@ -554,6 +560,7 @@ pub fn run_check(def: &PropertyDef, tier: Tier, base_seed: u64) -> CheckOutcome 
                     "unroutable": a.net.unroutable, "inbound_stalls": a.net.stalled_holds,
                     "nat_rebinds": a.net.rebinds,
                 },
+                "faults_fired_other": a.probes.iter().filter(|(k, _)| k.starts_with("fault:")).map(|(k, v)| (k[6..].to_string(), *v)).collect::<BTreeMap<String, u64>>(),
                 "datagrams_sent": a.net.sent,
                 "probes": a.probes,
                 "exhaustive_prefix": a.exhaustive,
@@ -584,6 +591,7 @@ pub fn run_check(def: &PropertyDef, tier: Tier, base_seed: u64) -> CheckOutcome 
                 "blocked_by_partition": net.blocked, "unroutable": net.unroutable,
                 "inbound_stalls": net.stalled_holds, "nat_rebinds": net.rebinds,
             },
+            "faults_fired_other_total": probes.iter().filter(|(k, _)| k.starts_with("fault:")).map(|(k, v)| (k[6..].to_string(), *v)).collect::<BTreeMap<String, u64>>(),
             "datagrams_sent": net.sent,
             "probes": probes,
             "probes_stuck_at_zero": zero_probes,
@@ -627,7 +635,7 @@ pub fn run_check(def: &PropertyDef, tier: Tier, base_seed: u64) -> CheckOutcome 
             a.nontrivial,
             a.inconclusive,
             a.violations.len(),
-            a.net.faults_fired(),
+            a.net.faults_fired() + a.probes.iter().filter(|(k, _)| k.starts_with("fault:")).map(|(_, v)| *v).sum::<u64>(),
             a.probes
         );
         // a batch that mostly cannot observe the property is a harness problem, not a pass
